@@ -559,6 +559,14 @@ def check_C01(tier, seed):
         for k, l in enumerate(wlines):
             wfd['messages'] += 1
             t = n_out[k].split(' ', 2) if k < len(n_out) else ['WN', '0', '']
+            if t[1].endswith('h'):
+                # well-formed, well-typed, accepted by message_check: C01_roundtrip_of_every_checked_well_typed_message applies
+                wfd['wf_typed_checked'] = wfd.get('wf_typed_checked', 0) + 1
+                t[1] = t[1][:-1]
+                if t[1] != '1' and len(run.violations) < 3:
+                    rp = run.replay('theorem-%d.txt' % len(run.violations),
+                                    'the extracted predicates contradict theorem checked_typed_canon: wf, typed, check-accepted, yet the normal form is not canonical\n--- schema\n%s--- message\n%s\n' % (env.text(), l))
+                    run.violation(rp, True)
             if t[1] != '1':
                 continue                      # outside the theorem's hypothesis: nothing claimed
             wfd['normal_form_is_canonical'] += 1
